@@ -215,6 +215,51 @@ class Gen:
             out.append(self.obs(d, r.choice(members)))
         return {"bodies": bodies, "steps": steps + out, "src": "gen-agg"}
 
+    def setchange(self):
+        """Guardian-set changes around an aggregation: signatures parked before the node's own observation (under the
+        old set, also by guardians that then leave), own observation under one set and quorum completed after a change,
+        re-observation after a change, inbound VAAs for the old and the new set."""
+        r = self.r
+        n = r.choice([3, 4, 4, 6, 7, 9, 13, 19])
+        A = self.mkset(r.randrange(3), n, True)
+        old = [k for k in A["keys"] if k != "g1"]
+        m = r.choice([1, 2, 3, 4, 6, n])
+        stay = r.sample(old, min(len(old), r.randrange(0, m + 1)))
+        fresh = ["h%d" % i for i in range(1, m + 1)]
+        keysB = (stay + fresh)[:max(1, m - 1)] + (["g1"] if r.random() < 0.85 else [])
+        r.shuffle(keysB)
+        B = {"idx": A["idx"] + 1, "keys": keysB}
+        bodies = {"d1": {"id": "i1", "chain": 2}, "d2": {"id": "i1", "chain": 2, "ts": 1600000100}}
+        order = r.choice(["parked-first", "own-first", "reobserve", "mixed"])
+        steps = [{"ev": "SetUpdate", "a": {"set": A}}]
+        qa, qb = q(n), q(len(keysB))
+        oldsig = r.sample(old, min(len(old), r.choice([qa - 1, qa, max(0, qa - 2), len(old)])))
+        newmem = [k for k in keysB if k != "g1"]
+        newsig = r.sample(newmem, min(len(newmem), r.choice([max(0, qb - 1), qb, len(newmem)])))
+        upd = {"ev": "SetUpdate", "a": {"set": B}}
+        lb = {"ev": "Loopback?", "a": {"d": "d1"}}
+        if order == "parked-first":
+            steps += [self.obs("d1", k) for k in oldsig] + [upd, self.msg("d1", bodies), lb] + [self.obs("d1", k) for k in newsig]
+        elif order == "own-first":
+            cut = r.randrange(0, len(oldsig) + 1)
+            steps += [self.msg("d1", bodies), lb] + [self.obs("d1", k) for k in oldsig[:cut]] + [upd]
+            tail = [self.obs("d1", k) for k in oldsig[cut:]] + [self.obs("d1", k) for k in newsig]
+            r.shuffle(tail)
+            steps += tail
+        elif order == "reobserve":
+            steps += [self.msg("d1", bodies), lb] + [self.obs("d1", k) for k in oldsig[:max(0, qa - 2)]] + [upd, self.msg("d1", bodies), lb]
+            steps += [self.obs("d1", k) for k in newsig] + [self.obs("d1", k) for k in oldsig]
+        else:
+            pool = [self.obs("d1", k) for k in oldsig] + [self.obs("d1", k) for k in newsig] + [upd, self.msg("d1", bodies), lb, lb]
+            r.shuffle(pool)
+            steps += pool
+        for S in (A, B):
+            if r.random() < 0.4 and S["keys"]:
+                k = len(S["keys"])
+                steps.insert(r.randrange(1, len(steps) + 1), self.vaa(r.choice(["d1", "d2"]), bodies, S, sorted(r.sample(range(k), r.choice([q(k), max(0, q(k) - 1)])))))
+        steps.append(lb)
+        return {"bodies": bodies, "steps": steps, "src": "gen-setchange"}
+
     def cleanup(self):
         """Histories of ticks and elapsed durations over reachable aggregation states (C14)."""
         r = self.r
@@ -303,6 +348,13 @@ class Gen:
                 pending.append(ev["a"].get("m", ev["a"].get("v"))["d"])
             if pending and r.random() < 0.6:
                 steps.append({"ev": "Loopback?", "a": {"d": pending.pop(0)}})
+        if r.random() < 0.7:
+            # let whatever entries this history created live through their whole life cycle
+            for k in (31, 301, 301, 3601):
+                steps.append({"ev": "Advance", "a": {"k": k}})
+                steps.append({"ev": "CleanupTick", "a": {"x": 0}})
+                if r.random() < 0.3:
+                    steps.append(self.obs(r.choice(list(bodies)), r.choice(members)))
         return {"bodies": bodies, "steps": steps, "src": "gen-adv"}
 
     def permutations(self):
@@ -514,7 +566,9 @@ def attribute(rej, line):
     if ev == "Observation":
         o = line["a"]["o"]
         invalid_obs = o["signer"] in ("ERR", "JUNK") or o["signer"] != o["claimed"] or o["over"] != o["d"]
-        if invalid_obs:
+        # C03: a message changes state only if validly signed by a member of the *applicable* set, so the recorded
+        # signers / the set of entries differing from what the membership rules dictate speaks to C03 as well
+        if invalid_obs or comps & {"agg-sigs", "agg-keys"}:
             props.add("C03")
     # C01 speaks about what is stored / broadcast and about the state those decisions are made from:
     # the guardian-set snapshot, the node's own VAA, the recorded signers, the current set; and about
